@@ -27,8 +27,14 @@ Definition find_shorter (left right : bytes) : bytes :=
        | None => left
        end.
 
+(* Which ordering assertion the source has (regenerated flags, tools/pindefs/sstable.py):
+   true  = skipped only for the first key of a block, index accesses guarded;
+   false = skipped whenever previous_key is empty (the shape with defect F11). *)
+Definition ORDER_FIXED : bool := N.eqb SST_ORDER_CHECK_BLOCK_START 1.
+
 Section Writer.
   Context {V : Type}.
+  Variable order_fixed : bool.     (* shape of the ordering assertion; the pinned source is ORDER_FIXED *)
   Variable block_len : N.          (* DeltaWriter.block_len; BLOCK_LEN unless set_block_len *)
 
   Record rblock := { rb_sep : bytes;          (* BlockMeta.last_key_or_greater *)
@@ -59,12 +65,22 @@ Section Writer.
         else None
     end.
 
-  (* let increasing_keys = add_len > 0 && (self.previous_key.len() == keep_len)
-         || self.previous_key.is_empty()
-         || self.previous_key[keep_len] < key[keep_len];
+  (* order_fixed = false:
+       let increasing_keys = add_len > 0 && (self.previous_key.len() == keep_len)
+           || self.previous_key.is_empty()
+           || self.previous_key[keep_len] < key[keep_len];
+     order_fixed = true:
+       let increasing_keys = add_len > 0 && (self.previous_key.len() == keep_len)
+           || first_key_of_the_block
+           || (keep_len < self.previous_key.len() && keep_len < key.len()
+               && self.previous_key[keep_len] < key[keep_len]);
      assert!(increasing_keys, ..)                         -- None = the assertion passes *)
-  Definition check_increasing (prev key : bytes) (keep add : nat) : option panic :=
+  Definition check_increasing (first_key_of_the_block : bool) (prev key : bytes) (keep add : nat) : option panic :=
     if Nat.ltb 0 add && Nat.eqb (length prev) keep then None
+    else if order_fixed then
+      (if first_key_of_the_block then None
+       else if Nat.ltb keep (length prev) && Nat.ltb keep (length key) && N.ltb (nth keep prev 0) (nth keep key 0)
+            then None else Some AssertKeysIncreasing)
     else if (match prev with [] => true | _ => false end) then None
     else match nth_error prev keep with
          | None => Some IndexOutOfBounds
@@ -79,12 +95,13 @@ Section Writer.
     firstn keep (firstn (length key) (prev ++ repeat 0 (length key))) ++ skipn keep key.
 
   Definition insert_key (st : wstate) (key : bytes) : wres :=
-    match (if N.eqb (w_first_ord st) (w_num_terms st) then shorten_last (w_done st) key else Some (w_done st)) with
+    let first_key_of_the_block := N.eqb (w_first_ord st) (w_num_terms st) in
+    match (if first_key_of_the_block then shorten_last (w_done st) key else Some (w_done st)) with
     | None => WPanic AssertShorterLeftLtRight
     | Some done' =>
         let keep := lcp (w_prev st) key in
         let add := (length key - keep)%nat in
-        match check_increasing (w_prev st) key keep add with
+        match check_increasing first_key_of_the_block (w_prev st) key keep add with
         | Some p => WPanic p
         | None =>
             WOk {| w_prev := set_prev (w_prev st) key keep;
